@@ -373,6 +373,7 @@ impl<'a, W: Write> Exec<'a, W> {
             let cl = slot.client.as_mut().unwrap();
             let mut lines: Vec<String> = vec![];
             let mut done = false;
+            let mut bad_eol = false;
             let mut tmp = [0u8; 65536];
             while !done {
                 // extract complete lines
@@ -381,6 +382,10 @@ impl<'a, W: Write> Exec<'a, W> {
                     l.pop();
                     if l.last() == Some(&b'\r') {
                         l.pop();
+                    } else if !bad_eol {
+                        // every emitted message must be CRLF terminated
+                        bad_eol = true;
+                        self.events.push(format!("lf-without-cr {}", c));
                     }
                     let s = String::from_utf8_lossy(&l).to_string();
                     if live && s == fence {
